@@ -9,6 +9,7 @@ import (
 	"reflect"
 	"strconv"
 	"strings"
+	"unicode/utf8"
 
 	"github.com/tdewolff/parse/v2"
 	"github.com/tdewolff/parse/v2/js"
@@ -276,6 +277,30 @@ func c05Oracle(r *Rng, tier string, rep *Report) {
 			for o := 0; o < 4; o++ {
 				c05RoundTrip(rep, s, o, "corpus")
 			}
+		}
+	}
+	// (1b) byte-level edits of those snippets: whatever is still accepted (and valid UTF-8) must round-trip
+	alphabet := []byte("abx01 \n\t;,.(){}[]+-*/%<>=!&|^~?:'\"`$\\#")
+	corpus := c05Corpus()
+	fz := 4000
+	if tier == "thorough" {
+		fz = 200000
+	}
+	for i := 0; i < fz && len(corpus) > 0; i++ {
+		b := append([]byte{}, corpus[r.Intn(len(corpus))]...)
+		for k := 0; k < 1+r.Intn(3) && len(b) > 0; k++ {
+			j := r.Intn(len(b))
+			switch r.Intn(3) {
+			case 0:
+				b = append(b[:j], b[j+1:]...)
+			case 1:
+				b = append(b[:j], append([]byte{alphabet[r.Intn(len(alphabet))]}, b[j:]...)...)
+			default:
+				b[j] = alphabet[r.Intn(len(alphabet))]
+			}
+		}
+		if utf8.Valid(b) && !bytes.Contains(b, []byte{0}) {
+			c05RoundTrip(rep, b, r.Intn(4), "fuzzed")
 		}
 	}
 	// (2) the C03 generators: expressions, expression statements, whole programs
